@@ -366,6 +366,19 @@ class Folder:
             return {"list": list, "tuple": tuple, "set": frozenset, "frozenset": frozenset}[fn.id](v)
         if isinstance(fn, ast.Name) and fn.id == "len" and len(expr.args) == 1:
             return len(self.fold(expr.args[0], scope))
+        if isinstance(fn, ast.Name) and fn.id == "isinstance" and len(expr.args) == 2 and not expr.keywords:
+            # isinstance(<folded value>, <built-in type or tuple of them>)
+            v = self.fold(expr.args[0], scope)
+            tt = expr.args[1].elts if isinstance(expr.args[1], ast.Tuple) else [expr.args[1]]
+            types = []
+            for t in tt:
+                if isinstance(t, ast.Name) and t.id in ("int", "float", "str", "bytes", "bool", "bytearray", "list", "tuple", "dict") and not (scope.env is not None and t.id in scope.env) and t.id not in scope.mod.consts and t.id not in scope.mod.classes:
+                    types.append({"int": int, "float": float, "str": str, "bytes": bytes, "bool": bool, "bytearray": bytearray, "list": list, "tuple": tuple, "dict": dict}[t.id])
+                else:
+                    raise Unfoldable("isinstance with a type that is not a built-in")
+            if isinstance(v, (int, float, str, bytes, bool, bytearray, list, tuple, dict, type(None))):
+                return isinstance(v, tuple(types))
+            raise Unfoldable("isinstance of a non-literal")
         if isinstance(fn, ast.Name) and fn.id in ("min", "max", "abs", "int", "bool", "all", "any", "sum", "sorted", "hex") and expr.args and not expr.keywords:
             args = [self.fold(a, scope) for a in expr.args]
             try:
